@@ -28,7 +28,7 @@ def valText (count : Nat) (g : Group) (pre : Option Group) : Val → String
   | .ref id =>
     if id = g.id then "group.Id"
     else if some id = pre.map (·.id) then "‹chain.getGroupById(group.Header.PreGroup)›.Id" else "?"
-  | .cnt _ => "utility.UInt64ToByte(chain.count)"
+  | .cnt n => if n = count + 1 then "utility.UInt64ToByte(chain.count + 1)" else "utility.UInt64ToByte(chain.count)"
 
 def writeText (count : Nat) (g : Group) (pre : Option Group) : Write → String
   | .put k v => "Put " ++ keyText count g k ++ " <- " ++ valText count g pre v
@@ -40,14 +40,20 @@ def countWritten : List Write → Option Nat
   | .put k (.cnt n) :: t => if k = cntKey then some n else countWritten t
   | _ :: t => countWritten t
 
-/-- The model's `save`, rendered as the source statements it stands for: the writes up to the
-    one that stores the incremented count, with `count++` placed before that one. -/
+/-- The model's `save`, rendered as the source statements it stands for: the first physical write
+    as a plain `Put`, the second one as a batch of `Put`s whose `Write` error is returned (the model
+    leaves memory untouched when that write fails: `saveF … (some 1)`), then `count++`. -/
 def modelSaveEffects (c : Chain) (g : Group) : List String :=
-  let ws := saveWrites c.count g
-  let txt := ws.map (writeText c.count g none)
-  txt.take 3 ++
-  (if countWritten ws = some (c.count + 1) ∧ (save c g).count = c.count + 1 then ["chain.count++"] else ["?"]) ++
-  txt.drop 3
+  match saveGroups c.count g with
+  | [first, batch] =>
+    first.map (writeText c.count g none) ++
+    ["NewBatch"] ++
+    batch.map (fun w => "Batch" ++ writeText c.count g none w) ++
+    (if (saveF c g (some 1)).2.1 = true ∧ (saveF c g (some 1)).1.count = c.count
+        ∧ (saveF c g (some 1)).1.last = c.last ∧ (saveF c g (some 1)).1.mirror = c.mirror
+      then ["BatchWrite (error returned)"] else ["?"]) ++
+    (if countWritten (first ++ batch) = some (c.count + 1) ∧ (save c g).count = c.count + 1 then ["chain.count++"] else ["?"])
+  | _ => ["?"]
 
 /-- In-memory / sqlite statements of `save` the model accounts for (sorted as the translator sorts). -/
 def modelSaveMemory (c : Chain) (g : Group) : List String :=
@@ -73,7 +79,9 @@ def wN : Group := { id := [0xf7], pre := [0xe5, 0xe6], parent := [0x90, 0x01], h
 def wC : Chain :=
   { disk := [([0xd4], .grp wP), ([0xe5, 0xe6], .grp wG)], count := 5, last := wG, mirror := [[0xe5, 0xe6], [0xd4]] }
 
-/-- `groupChain.save` in the source performs exactly the model's effects, in the model's order. -/
+set_option maxRecDepth 8000 in
+/-- `groupChain.save` in the source performs exactly the model's effects, in the model's order and
+    grouping (one `Put`, then one batch of three whose error is returned, then `count++`). -/
 theorem save_effects_match :
     saveEffects = modelSaveEffects wC wN ∧ saveMemory = modelSaveMemory wC wN := by decide
 
@@ -95,6 +103,7 @@ theorem add_guards_match : addGuards =
      "!bytes.Equal(chain.lastGroup.Id, group.Header.PreGroup)",
      "return chain.save(group)"] := by decide
 
+set_option maxRecDepth 8000 in
 /-- Nobody but `save`, `remove` and start-up writes the group store, `count` or `lastGroup`
     anywhere in package core, and they write exactly this much. -/
 theorem only_known_writers : stateWriters =
@@ -104,9 +113,11 @@ theorem only_known_writers : stateWriters =
      "*groupChain.remove: Put",
      "*groupChain.remove: chain.count--",
      "*groupChain.remove: chain.lastGroup = ‹chain.getGroupById(group.Header.PreGroup)›",
-     "*groupChain.save: Put",
-     "*groupChain.save: Put",
-     "*groupChain.save: Put",
+     "*groupChain.save: BatchPut",
+     "*groupChain.save: BatchPut",
+     "*groupChain.save: BatchPut",
+     "*groupChain.save: BatchWrite",
+     "*groupChain.save: NewBatch",
      "*groupChain.save: Put",
      "*groupChain.save: chain.count++",
      "*groupChain.save: chain.lastGroup = group",
